@@ -153,10 +153,6 @@ class SeenSet:
         """
         if self.all_seen:
             return True
-        if not assignment:
-            self.all_seen = True
-            self.seen.append(assignment)
-            return False
         for constraint in self.seen:
             if all(assignment[k] == v if k in assignment else False for k, v in constraint.items()):
                 return True
